@@ -1,4 +1,5 @@
 """C01 Simulation is a deterministic function of the integration state."""
+import os
 import json
 
 import numpy as np
@@ -37,7 +38,11 @@ def _apply_call(L, m, d, call, n):
         d.forward()
     elif call == "inverse":
         d.forward()
+        if os.environ.get("VF_C01_DEBUG"):
+            print("C01-DEBUG nefc after forward", d.s("nefc"), flush=True)
         d.inverse()
+        if os.environ.get("VF_C01_DEBUG"):
+            print("C01-DEBUG nefc after inverse", d.s("nefc"), flush=True)
     elif call == "step":
         d.step(n)
     elif call == "step1step2":
@@ -157,7 +162,10 @@ def worker(c):
         if call in ("step", "step1step2") and m.opt["integrator"] in (E.mjINT_IMPLICIT, E.mjINT_IMPLICITFAST):
             inc += ["qDeriv", "qLU"]
         o0, o1 = common.outputs(d0, include=inc), common.outputs(d1, include=inc)
-        fd = common.first_diff(o0, o1)
+        # efc_b (= J*qacc_smooth - aref) is written by mj_fwdConstraint only; mj_inverse re-allocates it with the other efc arrays but
+        # never defines it, so after an inverse call whose constraint set differs from the preceding forward's (sleeping trees are
+        # ignored by mj_inverse) it is engine-undefined arena memory, not an output
+        fd = common.first_diff(o0, o1, skip=("arena.efc_b",) if call == "inverse" else ())
         nontriv = nv > 0
         P.case(key="%s|%s|%s|%s" % (name, optkey, twin, call), nontrivial=nontriv,
                sample={"model": name, "options": opts, "twin": twin, "call": call, "ops": ops[:4], "nefc": d0.s("nefc"), "ncon": d0.s("ncon")})
